@@ -421,6 +421,67 @@ def run_histories(ctx):
                                            "later": r.tolist(), "order": list(order)})
                     else:
                         first[meth] = r
+    # configuring an object gives the same object whatever read-only calls came first:
+    # values far inside the declared range of every parameter (beyond the default
+    # sampling box of params_sample where the range is unbounded)
+    for tn in TRANSFORMS:
+        if tn in ("Softmax", "Identity"):
+            continue
+        x = np.array([0.1, 0.5, 0.9, 0.3]) if tn == "Logit" else \
+            np.array([0.05, 0.5, 1.5, 2.5])
+        t0 = transform.get_transform(tn, **SETUP.get(tn, {}))
+        mins0 = np.array(t0.params.mins, dtype=float)
+        maxs0 = np.array(t0.params.maxs, dtype=float)
+        for side in range(3):
+            cfg = []
+            for lo, hi in zip(mins0, maxs0):
+                lo_ = lo if np.isfinite(lo) else [-37.5, -1e3, -11.0][side]
+                hi_ = hi if np.isfinite(hi) else [41.0, 1e3, 11.5][side]
+                f_ = [0.01, 0.99, 0.5][side]
+                cfg.append(lo_ + f_ * (hi_ - lo_))
+            cfg = np.array(cfg)
+
+            def configured(prior_calls):
+                t = transform.get_transform(tn, **SETUP.get(tn, {}))
+                with warnings.catch_warnings(), np.errstate(all="ignore"):
+                    warnings.simplefilter("ignore")
+                    if prior_calls:
+                        for kw in ({}, {"minval": -3.0, "maxval": 3.0}):
+                            try:
+                                t.params_sample(7, **kw)
+                            except Exception:
+                                pass
+                        t.params_logprior()
+                        str(t)
+                        try:
+                            t.forward(x.copy())
+                        except Exception:
+                            pass
+                    bounds = (np.array(t.params.mins, dtype=float),
+                              np.array(t.params.maxs, dtype=float))
+                    try:
+                        t.params.values = cfg.copy()
+                        vals = np.array(t.params.values, dtype=float)
+                        out = np.asarray(t.forward(x.copy()), dtype=float)
+                    except Exception as e:
+                        vals, out = repr(type(e)), None
+                return bounds, vals, out
+            b1, v1, o1 = configured(False)
+            b2, v2, o2 = configured(True)
+            ctx.api("Transform.params_sample", 2)
+            ctx.tag("history:configure-after-read-only-calls")
+            ctx.evaluated()
+            case_ = {"kind": "history-config", "class": tn, "values": cfg.tolist()}
+            ctx.check("history.bounds-kept", bool(np.array_equal(b1[0], b2[0])) and
+                      bool(np.array_equal(b1[1], b2[1])),
+                      f"stat.transform.{tn}|parameter-bounds-changed-by-read-only-calls",
+                      case_, lambda: {"fresh": [b1[0].tolist(), b1[1].tolist()],
+                                      "after": [b2[0].tolist(), b2[1].tolist()]})
+            ctx.check("history.same-configuration",
+                      same_result(v1, v2, 0) and same_result(o1, o2, 1e-13),
+                      f"stat.transform.{tn}|configuration-depends-on-earlier-read-only-calls",
+                      case_, lambda: {"values_fresh": np.asarray(v1).tolist(),
+                                      "values_after": np.asarray(v2).tolist()})
     # a caller-supplied answer vector that has served another call before
     big = np.array([[-10., -10.], [10., -10.], [10., 10.], [-10., 10.]])
     small = np.array([[0., 0.], [1., 0.], [1., 1.], [0., 1.]])
